@@ -255,22 +255,34 @@ theorem addPlain_eq (st : RState) (c : Nat) : addPlain st c = st.push (esc c) :=
   unfold addPlain esc
   cases htmlEscape c <;> rfl
 
+theorem inv_finishCR (cfg : RCfg) (hattr : ∀ h, 62 ∉ cfg.attr h) {st : RState} {t : Bytes} (hi : Inv st t) :
+    Inv (finishCR cfg st) t := by
+  unfold finishCR
+  cases ho : st.lastCR with
+  | none => exact hi
+  | some off => exact inv_addCR cfg hattr hi off ho
+
 theorem inv_addByte (cfg : RCfg) (hattr : ∀ h, 62 ∉ cfg.attr h) (hl : List Nat) {st : RState} {t : Bytes}
     (hi : Inv st t) (c : Nat) : Inv (addByte cfg hl st c) (t ++ [c].filter (· ≠ 13)) := by
   unfold addByte
   by_cases h13 : c = 13
   · subst h13
     rw [if_pos rfl]
-    have hlen : st.rhtml.length = st.html.length := by simp [RState.html]
     have hf13 : [13].filter (· ≠ 13) = [] := by decide
     rw [hf13, List.append_nil]
-    refine ⟨hi.text, hi.closed, ?_⟩
+    have hi0 : Inv (if cfg.crcr then finishCR cfg st else st) t := by
+      split
+      · exact inv_finishCR cfg hattr hi
+      · exact hi
+    generalize (if cfg.crcr then finishCR cfg st else st) = st0 at hi0
+    have hlen : st0.rhtml.length = st0.html.length := by simp [RState.html]
+    refine ⟨hi0.text, hi0.closed, ?_⟩
     intro off ho
     simp only [Option.some.injEq] at ho
     subst ho
-    show st.rhtml.length ≤ st.html.length ∧ endSt false (st.html.take st.rhtml.length) = false
+    show st0.rhtml.length ≤ st0.html.length ∧ endSt false (st0.html.take st0.rhtml.length) = false
     rw [hlen, List.take_length]
-    exact ⟨Nat.le_refl _, hi.closed⟩
+    exact ⟨Nat.le_refl _, hi0.closed⟩
   · rw [if_neg h13]
     have hf : [c].filter (· ≠ 13) = [c] := by simp [h13]
     rw [hf]
@@ -325,13 +337,6 @@ theorem textOf_eq (dec : Bytes → Bytes) (evs : List Ev) (src : Bytes) :
     simp only [List.flatMap_cons, List.filter_append, ih]
     cases ev <;> simp [evText]
 
-
-theorem inv_finishCR (cfg : RCfg) (hattr : ∀ h, 62 ∉ cfg.attr h) {st : RState} {t : Bytes} (hi : Inv st t) :
-    Inv (finishCR cfg st) t := by
-  unfold finishCR
-  cases ho : st.lastCR with
-  | none => exact hi
-  | some off => exact inv_addCR cfg hattr hi off ho
 
 theorem html_finishOffsets (st : RState) : (finishOffsets st).html = st.html := by
   unfold finishOffsets; split <;> rfl
